@@ -6,3 +6,4 @@ import RaftWal.Props.C13
 #print axioms RaftWal.C13.reclaimed_when_released
 #print axioms RaftWal.C13.dropped_files_closed
 #print axioms RaftWal.C13.closed_only_by_finalizer
+#print axioms RaftWal.C13.every_acquire_is_released_once
